@@ -83,18 +83,22 @@ CLAIMED = {
         "technique": "Coq proof (fault-indexed run of a call-list model) + fault-injection correspondence on the real tools",
     },
     "C19": {
-        "text": ("8 theorems (Coq, no axioms) over a model of EYAMLProcessor.is_eyaml_value / find_eyaml_paths and the "
-                 "rotation loop of eyaml_rotate_keys.py, the cipher being Section variables with the three cipher "
-                 "laws as hypotheses: the ENC[ marker rule; a file without secrets is neither rewritten nor backed "
-                 "up; an anchored secret is rotated once (seen_anchors never repeats a name, for any run); per "
-                 "value, the new ciphertext decrypts under the new key to the old plaintext and the old key is "
-                 "dead (guard plain_ok = listed finding F19a, with _refuted witnesses).  Document-level "
-                 "re-keying / frame statements are NOT proved yet (judged on the real code only; docs/C19.md).  "
-                 "Tie: the real eyaml-rotate-keys main() in-process against a keyed reversible stand-in eyaml "
-                 "executable (the hiera-eyaml gem is absent)."),
+        "text": ("15 theorems (Coq, no axioms) over a model of EYAMLProcessor.is_eyaml_value / find_eyaml_paths and the "
+                 "rotation of eyaml_rotate_keys.py (per-file loop with seen_anchors, save/backup decision, and the "
+                 "loop over the files of one invocation), the cipher being Section variables with the three cipher "
+                 "laws and a layout law as hypotheses: the ENC[ marker rule for every value; a file without "
+                 "secrets is neither rewritten nor backed up; under the invariant Inv (same oid = same tree and "
+                 "anchor; fresh oids are fresh), preserved by every replacement step, the written document is "
+                 "the input with exactly the encrypted leaves substituted (C19_frame), aliases of one anchored "
+                 "secret stay one object and the cipher is asked at most once per anchor (C19_shared_once), and "
+                 "at every encrypted position of every document the new ciphertext decrypts under the new key to "
+                 "the old plaintext and not under the old key (C19_rekeyed_partial / C19_old_key_dead_partial, "
+                 "guard plain_ok = listed finding F19a with _refuted witnesses).  Tie: whole invocations of the "
+                 "real main() with 1-3 files against a keyed reversible stand-in eyaml executable (the "
+                 "hiera-eyaml gem is absent); the judge decides 'encrypted' by the property's own rule."),
         "design_ref": "DESIGN.md section 4 (C19), docs/C19.md",
-        "note": NOTE_COMMON + "  The real hiera-eyaml/PKCS7 is replaced by harness/eyaml_standin.py.",
-        "technique": "Coq proof (loop invariant over the rotation model, cipher laws as hypotheses) + differential correspondence with a stand-in eyaml",
+        "note": NOTE_COMMON + "  The real hiera-eyaml/PKCS7 is replaced by harness/eyaml_standin.py; the multi-file loop has a model and a tie but no theorem.",
+        "technique": "Coq proof (identity-consistency invariant over leaf substitution; cipher laws as hypotheses) + differential correspondence with a stand-in eyaml",
     },
     "C07": {
         "text": ("18 theorems (Coq, no axioms) over a model of yaml_paths.search_for_paths / yield_children / "
